@@ -147,10 +147,14 @@ class Sim:
     def on_yield(self, v: Any) -> None:
         self.delivered.append(v)
         self.idle = 0
+        if len(self.delivered) > 14:  # far more than any modelled log holds: a runaway re-delivery loop
+            raise _Quiescent()
         self.choice_point("yield")
         return None
 
     def on_await(self, v: Any) -> Any:
+        if self.in_appender:
+            return None if isinstance(v, (WaitReq, SleepReq)) else v  # the appender's own awaits are not scheduling points of the model
         if isinstance(v, WaitReq):
             return self.wait(v.timeout)
         if isinstance(v, SleepReq):
@@ -604,21 +608,21 @@ def rule_r5(chk: Any, lh: LogHarness) -> None:
     bad = ""
     n = 0
     for kind in lh.h.cfg.kinds:
-        for after in (None, -1, 0, 1):
+        for after, stored in ((None, 2), (-1, 2), (0, 2), (1, 2), (None, 0), (-1, 0)):
             s = lh.base(kind)
             lh.sim = Sim([], [], lambda ev: None)
             lh.sim.in_appender = True
             try:
                 s.call("update", lh.h.handler(handler_id="H", workflow_name="w", status="running", run_id=RUN))
-                for i in range(2):
+                for i in range(stored):
                     lh.append(s, RUN, lh.event(i, False))
                 api = Record("_WorkflowAPI", _service=Record("Service", store=s.rec))
                 gen = _guard("C16.R5", "_resolve_event_stream", lambda: w.call_method(api, "_resolve_event_stream", "H", after_sequence=after, include_internal=True, include_qualified_name=True))
                 if gen is None:
                     bad = bad or f"{kind}: a running handler with stored events resolved to `None` (stream refused) for after_sequence={after}"
                     continue
-                lh.append(s, RUN, lh.event(2, False))
-                lh.append(s, RUN, lh.event(3, True))
+                lh.append(s, RUN, lh.event(stored, False))
+                lh.append(s, RUN, lh.event(stored + 1, True))
                 lh.sim.in_appender = False
                 saved = w.await_hook
                 w.await_hook = lh.sim.on_await
@@ -634,14 +638,14 @@ def rule_r5(chk: Any, lh: LogHarness) -> None:
                 continue
             n += 1
             got = [(q, e.value["i"]) for q, e in items]
-            cur = 1 if after is None else after
-            want = [(q, q) for q in range(4) if q > cur]
+            cur = stored - 1 if after is None else after
+            want = [(q, q) for q in range(stored + 2) if q > cur]
             if got != want:
-                bad = bad or (f"{kind}: 2 events stored, stream resolved with after_sequence={'now' if after is None else after}, then 2 more (last terminal) appended: "
+                bad = bad or (f"{kind}: {stored} events stored, stream resolved with after_sequence={'now' if after is None else after}, then 2 more (last terminal) appended: "
                               f"stream yields (id, event) {got}, expected {want}")
     chk.ob("C16.R5", "`_resolve_event_stream`: 'now' starts after the current maximum sequence, a cursor k yields exactly the events above k with the stored sequence as id (both stores)",
            not bad, m=m, node=res, fn=res, instance="resolve-cursor", reason=bad)
-    chk.floor("C16.R5", "stream resolutions evaluated", n, 2 if bad else 4 * len(lh.h.cfg.kinds))
+    chk.floor("C16.R5", "stream resolutions evaluated", n, 0 if bad else 6 * len(lh.h.cfg.kinds))
 
     # cursor selection in _stream_events: Last-Event-ID > query parameter; 'now'/absent -> None
     def capture(rec: Any, *a: Any, **kw: Any) -> Any:
@@ -748,4 +752,50 @@ _PA = "packages/llama-agents-server/src/llama_agents/server/_store/abstract_work
 _PAPI = "packages/llama-agents-server/src/llama_agents/server/_api.py"
 _PENV = "packages/llama-agents-client/src/llama_agents/client/protocol/serializable_events.py"
 
-TWINS: list[Twin] = []
+TWINS: list[Twin] = [
+    # ---- R1 breaking
+    Twin("memory: suspension between reading the last sequence and appending", _PM, "        existing.append(stored)\n        condition = self._conditions.get(run_id)", "        await asyncio.sleep(0)\n        existing.append(stored)\n        condition = self._conditions.get(run_id)", "C16.R1"),
+    Twin("memory: sequence from the length plus one", _PM, "next_seq = (existing[-1].sequence + 1) if existing else 0\n        stored = StoredEvent(", "next_seq = len(existing) + 1\n        stored = StoredEvent(", "C16.R1"),
+    Twin("sqlite: sequences start at 1", _PS, "FROM events WHERE run_id = ?), -1) + 1", "FROM events WHERE run_id = ?), 0) + 1", "C16.R1"),
+    Twin("sqlite: sequence read in one statement and inserted in another", _PS,
+         '            conn.execute(\n                """INSERT INTO events (run_id, sequence, timestamp, event_json)\n                VALUES (?, COALESCE((SELECT MAX(sequence) FROM events WHERE run_id = ?), -1) + 1, CURRENT_TIMESTAMP, ?)""",\n                (\n                    run_id,\n                    run_id,\n                    event.model_dump_json(),\n                ),\n            )',
+         '            nxt = conn.execute("SELECT COALESCE(MAX(sequence), -1) + 1 FROM events WHERE run_id = ?", (run_id,)).fetchone()[0]\n            conn.execute(\n                """INSERT INTO events (run_id, sequence, timestamp, event_json)\n                VALUES (?, ?, CURRENT_TIMESTAMP, ?)""",\n                (run_id, nxt, event.model_dump_json()),\n            )', "C16.R1"),
+    # ---- R2 breaking
+    Twin("memory: inclusive cursor in query_events", _PM, "events = [e for e in events if e.sequence > after_sequence]", "events = [e for e in events if e.sequence >= after_sequence]", "C16.R2"),
+    Twin("sqlite: inclusive cursor in query_events", _PS, 'sql += " AND sequence > ?"', 'sql += " AND sequence >= ?"', "C16.R2"),
+    Twin("sqlite: ORDER BY dropped", _PS, '        sql += " ORDER BY sequence"\n        if limit is not None:', "        if limit is not None:", "C16.R2"),
+    Twin("sqlite: newest first", _PS, '        sql += " ORDER BY sequence"\n        if limit is not None:', '        sql += " ORDER BY sequence DESC"\n        if limit is not None:', "C16.R2"),
+    Twin("memory: subscription start index off by one", _PM, "if e.sequence <= after_sequence:\n                    cursor = i + 1", "if e.sequence < after_sequence:\n                    cursor = i + 1", "C16.R2"),
+    Twin("sqlite: subscription cursor off by one", _PS, "        cursor = after_sequence\n\n        while True:\n            async with condition:", "        cursor = after_sequence + 1\n\n        while True:\n            async with condition:", "C16.R2"),
+    # ---- R3 breaking
+    Twin("memory: cursor not advanced", _PM, "                yield event\n                cursor += 1\n", "                yield event\n", "C16.R3"),
+    Twin("memory: no return after the terminal event", _PM, "                if self._is_terminal_event(event):\n                    return", "                if self._is_terminal_event(event):\n                    pass", "C16.R3"),
+    Twin("sqlite: cursor not advanced", _PS, "                yield event\n                cursor = event.sequence\n", "                yield event\n", "C16.R3"),
+    Twin("memory: batch read before the lock is taken (check-then-wait window)", _PM,
+         "            async with condition:\n                all_events = self.events.get(run_id, [])\n                batch = all_events[cursor:]\n                if not batch:\n                    await condition.wait()\n                    continue\n",
+         "            all_events = self.events.get(run_id, [])\n            batch = all_events[cursor:]\n            if not batch:\n                async with condition:\n                    await condition.wait()\n                continue\n", "C16.R3"),
+    Twin("memory: appender forgets to notify", _PM, "            async with condition:\n                condition.notify_all()\n\n    async def query_events", "            async with condition:\n                pass\n\n    async def query_events", "C16.R3"),
+    Twin("sqlite: terminal test looks at the end of the batch", _PS, "                cursor = event.sequence\n                if self._is_terminal_event(event):", "                cursor = event.sequence\n                if self._is_terminal_event(batch[-1]):", "C16.R3"),
+    Twin("memory: terminal test looks at the end of the batch", _PM, "                cursor += 1\n                if self._is_terminal_event(event):", "                cursor += 1\n                if self._is_terminal_event(batch[-1]):", "C16.R3"),
+    Twin("terminal test ignores subclasses of StopEvent", _PA, "        return StopEvent.__name__ in types", "        return event.event.type == StopEvent.__name__", "C16.R3"),
+    Twin("memory: untimed wait outside any re-check loop", _PM, "                if not batch:\n                    await condition.wait()\n                    continue\n", "                if not batch:\n                    await condition.wait()\n                    batch = all_events[cursor:]\n", None),
+    # ---- R4 breaking
+    Twin("envelope drops the nearest base class name", _PENV, "for c in cls.mro()[1:]:", "for c in cls.mro()[2:]:", "C16.R4"),
+    Twin("envelope lists only non-terminal bases", _PENV, "        if issubclass(c, Event):\n            names.append(c.__name__)", "        if issubclass(c, Event) and not issubclass(c, StopEvent):\n            names.append(c.__name__)", "C16.R4"),
+    # ---- R5 breaking
+    Twin("'now' on an empty log skips sequence 0", _PAPI, "after_sequence = all_current[-1].sequence if all_current else -1", "after_sequence = all_current[-1].sequence if all_current else 0", "C16.R5"),
+    Twin("'now' resolved to the event count", _PAPI, "after_sequence = all_current[-1].sequence if all_current else -1", "after_sequence = len(all_current)", "C16.R5"),
+    Twin("Last-Event-ID ignored", _PAPI, "                try:\n                    after_sequence = int(last_event_id)\n                except ValueError:", "                try:\n                    int(last_event_id)\n                except ValueError:", "C16.R5"),
+    Twin("stream ids are positions, not stored sequences", _PAPI, "                yield stored_event.sequence, envelope", "                yield stored_event.sequence + 1, envelope", "C16.R5"),
+    # ---- benign
+    Twin("benign: next sequence from the list length", _PM, "next_seq = (existing[-1].sequence + 1) if existing else 0", "next_seq = len(existing)", None),
+    Twin("benign: setdefault for the run's list", _PM, "        if run_id not in self.events:\n            self.events[run_id] = []\n        existing = self.events[run_id]\n        next_seq = (existing[-1].sequence + 1) if existing else 0\n        stored = StoredEvent(", "        existing = self.events.setdefault(run_id, [])\n        next_seq = (existing[-1].sequence + 1) if existing else 0\n        stored = StoredEvent(", None),
+    Twin("benign: IFNULL and +1 inside the sub-select", _PS, "COALESCE((SELECT MAX(sequence) FROM events WHERE run_id = ?), -1) + 1, CURRENT_TIMESTAMP", "IFNULL((SELECT MAX(sequence) + 1 FROM events WHERE run_id = ?), 0), CURRENT_TIMESTAMP", None),
+    Twin("benign: start index by counting", _PM, "            cursor = 0\n            for i, e in enumerate(all_events):\n                if e.sequence <= after_sequence:\n                    cursor = i + 1", "            cursor = sum(1 for e in all_events if e.sequence <= after_sequence)", None),
+    Twin("benign: cursor advanced before the yield", _PM, "                yield event\n                cursor += 1\n", "                cursor += 1\n                yield event\n", None),
+    Twin("benign: len() test for the empty batch", _PS, "                if not batch:\n                    with contextlib.suppress(TimeoutError):", "                if len(batch) == 0:\n                    with contextlib.suppress(TimeoutError):", None),
+    Twin("benign: types list built the other way round", _PA, "types = (event.event.types or []) + [event.event.type]", "types = [event.event.type] + list(event.event.types or [])", None),
+    Twin("benign: 'now' through max()", _PAPI, "after_sequence = all_current[-1].sequence if all_current else -1", "after_sequence = max((e.sequence for e in all_current), default=-1)", None),
+    Twin("benign: reversed strict comparison", _PM, "events = [e for e in events if e.sequence > after_sequence]", "events = [e for e in events if after_sequence < e.sequence]", None),
+    Twin("benign: cursor kept as last delivered sequence via max", _PS, "                cursor = event.sequence\n", "                cursor = max(cursor, event.sequence)\n", None),
+]
